@@ -334,6 +334,22 @@ func runStacks(prop, tier string, wi, wn int, p plan, res *workerResult) {
 				}
 				checkRefsForTable(c, res)
 			})
+			if cfg.SkipObj {
+				continue
+			}
+			// one object in every possible number of ref blocks (obj records with 1..7 inline positions, with an
+			// explicit count, and with the list omitted)
+			n, step := 120, 3
+			if cfg.BlockSize == 0 {
+				n, step = 1600, 75
+			}
+			tablegen.F4Fan(cfg, n, step, func(c *tablegen.Case) {
+				unit++
+				if (unit-1)%wn != wi {
+					return
+				}
+				checkRefsForTable(c, res)
+			})
 		}
 	}
 }
